@@ -2,7 +2,7 @@
    Statements only; proofs are in proofs/P_C15.v.  Model: model/Control.v (compute_sizes,
    ctl_enable_streaming, stream_params) = cameleon/src/u3v/control_handle.rs enable_streaming
    after the fix commits 9f212d6, 03aec4e, 7004d0a. *)
-From Cam Require Import Outcome Bytes Chunks Cmd Ack Control P_C15.
+From Cam Require Import Outcome Bytes Chunks Cmd Ack Control P_C06 P_C15 P_C15b.
 
 (* ---- the size computation ------------------------------------------------------------ *)
 
@@ -147,3 +147,25 @@ Theorem C15_failure : forall sirm pre x post c w c1 w1 (r1 : outcome unit) c2 w2
     w_writes w2 = rev (firstn n (map (img sirm) (pre ++ x :: post))) ++ w_writes w.
 Proof. exact write_seq_failure. Qed.
 Print Assumptions C15_failure.
+
+(* ---- read-back (partial) ---------------------------------------------------------------------------- *)
+
+(* C15_params_readback_partial.  Full statement (established by the correspondence check on every
+   case, not by a theorem): on the world left by a successful ctl_enable_streaming against a
+   conforming device, stream_params returns [sp_leader p; sp_trailer p; sp_size p; sp_count p;
+   sp_final1 p; sp_final2 p] for the programmed plan p.
+   Proved here: the one-register core of it.  On a conforming device (every transaction plan is
+   pending acknowledges below the retry count followed by the conforming acknowledge), an opened
+   handle with sane negotiated limits and a register [a, a+4) inside device memory: a 32-bit value
+   written with write_register is acknowledged, is what read_register returns from that address,
+   and the device memory differs from before exactly by those four bytes.  Together with
+   C15_covers (every programmed value is below 2^32) and C15_reads_do_not_write. *)
+Theorem C15_params_readback_partial : forall c w a v pre b m post,
+  c_opened c = true -> 12 < c_max_ack c < 2 ^ 32 -> 24 <= c_max_cmd c -> 0 <= c_next c < 2 ^ 16 ->
+  1 <= c_retry c -> conf (c_retry c) w ->
+  range_in (w_segs w) a 4 pre b m post -> 0 <= a -> a + 4 <= 2 ^ 64 -> 0 <= v < 2 ^ 32 ->
+  exists c1 w1 c2 w2,
+    write_reg a 4 v (c, w) = (Ok tt, (c1, w1)) /\ read_reg a 4 (c1, w1) = (Ok v, (c2, w2)) /\
+    w_segs w2 = pre ++ (b, set_at (a - b) m (le_bytes 4 v)) :: post.
+Proof. exact write_then_read. Qed.
+Print Assumptions C15_params_readback_partial.
